@@ -110,6 +110,53 @@ def mutants_of(fname, src):
             l, r = seg(src, n.left), seg(src, n.right)
             if l and r and not isinstance(n.left, ast.Constant) or (l and r and not isinstance(n.right, ast.Constant)):
                 add(n, f"({l} {'-' if isinstance(n.op, ast.Add) else '+'} {r})", "plus-minus")
+    if os.environ.get("MUTSWEEP_OPS", "first") == "second":
+        out = []
+        SIB = [("_1", "_2"), ("_MIN", "_MAX"), ("offered", "stopped"), ("subscribed", "unsubscribed"), ("1", "2")]
+
+        def sibling(name):
+            for a, b in SIB:
+                for x, y in ((a, b), (b, a)):
+                    if name.endswith(x) and len(name) > len(x):
+                        return name[: -len(x)] + y
+            table = {"add": "remove", "remove": "add", "start": "stop", "stop": "start", "append": "insert_never", "min": "max", "max": "min",
+                     "call_soon": "call_soon_threadsafe", "options_1": "options_2", "oi1": "oi2", "no1": "no2", "oi2": "oi1", "no2": "no1",
+                     "entries": "options", "flag_reboot": "flag_unicast", "flag_unicast": "flag_reboot", "client_id": "session_id",
+                     "session_id": "client_id", "service_id": "method_id", "instance_id": "service_id", "major_version": "minor_version",
+                     "callback_new": "callback_expired", "callback_expired": "callback_new", "addr": "remote", "multicast": "not multicast"}
+            return table.get(name)
+        for n in ast.walk(tree):
+            fn = func_of(n)
+            if not fn or "__str__" in fn:
+                continue
+            if isinstance(n, ast.Attribute) and isinstance(n.ctx, ast.Load):
+                sb = sibling(n.attr)
+                if sb and sb not in ("insert_never", "call_soon_threadsafe"):
+                    base = seg(src, n.value)
+                    if base:
+                        add(n, f"{base}.{sb}", "sibling-attr")
+            elif isinstance(n, ast.Name) and isinstance(n.ctx, ast.Load):
+                sb = sibling(n.id)
+                if sb and sb.isidentifier():
+                    add(n, sb, "sibling-name")
+            elif isinstance(n, ast.keyword) and n.arg:
+                pass
+        # swap two adjacent simple statements
+        for n in ast.walk(tree):
+            for field in ("body", "orelse", "finalbody"):
+                body = getattr(n, field, None)
+                if not isinstance(body, list) or not func_of(body[0] if body else n):
+                    continue
+                for a, b in zip(body, body[1:]):
+                    if isinstance(a, (ast.Expr, ast.Assign, ast.AugAssign)) and isinstance(b, (ast.Expr, ast.Assign, ast.AugAssign)) \
+                            and not (isinstance(a, ast.Expr) and isinstance(a.value, ast.Constant)) and a.col_offset == b.col_offset:
+                        ta, tb = seg(src, a), seg(src, b)
+                        if ta and tb and "log" not in ta.split("(")[0].lower() and "log" not in tb.split("(")[0].lower():
+                            sa, ea = offsets(src, a)
+                            sb_, eb = offsets(src, b)
+                            mid = src[ea:sb_]
+                            out.append({"file": fname, "line": a.lineno, "func": func_of(a), "op": "swap-stmts", "old": (ta + " ; " + tb)[:120],
+                                        "new": (tb + " ; " + ta)[:120], "span": [sa, eb], "text": tb + mid + ta})
     return out
 
 
